@@ -160,6 +160,31 @@ func runRWPair(rc *RuleCtx) {
 				continue // clause does not touch the wire (type tests, delegation through an interface)
 			}
 			anchor := "case " + strings.Join(names, ",")
+			// name affinity: a per-kind helper called in this clause (Read/Write/Encode/Decode/Append<Kind>)
+			// must be the helper of a kind with the same encoding AND the same width as the label
+			if len(cl.labels) == 1 {
+				lk := kindKey(cl.labels[0].name)
+				for _, f := range calleesIn(ks.pkg, cl.body) {
+					if f.Pkg() == nil || (f.Pkg().Path() != joinMod("proto/binary") && f.Pkg().Path() != joinMod("proto/protowire")) {
+						continue // text encoders (internal/json.EncodeInt64 …) are not wire helpers
+					}
+					stem := ""
+					for _, pre := range []string{"Read", "Write", "Encode", "Decode", "Append", "Consume"} {
+						if strings.HasPrefix(f.Name(), pre) {
+							stem = strings.TrimPrefix(f.Name(), pre)
+						}
+					}
+					ck := kindKey(stem)
+					if _, isKind := kindSpec[ck]; !isKind || stem == "Byte" || stem == "Int" {
+						continue
+					}
+					if ck == lk || kindCompatible(lk, ck) {
+						continue
+					}
+					got = got + " via " + f.Name()
+					want = want + " for " + lk
+				}
+			}
 			if got == want {
 				rc.add(nil, ks.fnName, anchor, cl.pos, "discharged", "wire primitives {"+got+"}", true)
 			} else {
@@ -204,4 +229,21 @@ func runRWPair(rc *RuleCtx) {
 			}
 		}
 	}
+}
+
+// kindCompatible: helper kind ck may serve label kind lk (same wire encoding and value width).
+func kindCompatible(lk, ck string) bool {
+	width := map[string]int{"BOOL": 1, "ENUM": 32, "INT32": 32, "UINT32": 32, "SINT32": 32, "FIX32": 32, "SFIX32": 32, "FLOAT": 32,
+		"INT64": 64, "UINT64": 64, "SINT64": 64, "FIX64": 64, "SFIX64": 64, "DOUBLE": 64, "STRING": 0, "BYTE": 0}
+	if kindSpec[lk] != kindSpec[ck] {
+		return false
+	}
+	if lk == "ENUM" || ck == "ENUM" {
+		// enums are int32 on the wire but are read/written through the 32- or 64-bit varint helpers
+		return true
+	}
+	if (lk == "STRING" && ck == "BYTE") || (lk == "BYTE" && ck == "STRING") {
+		return true
+	}
+	return width[lk] == width[ck]
 }
